@@ -22,6 +22,9 @@ const (
 	ePos
 	eNeg // negated mention
 	eAgg // mention feeding an aggregation (do-transform rule)
+	// the same pair mentioned twice: positively and negated; counts as negated
+	eBothPosFirst
+	eBothNegFirst
 )
 
 type c03Graph struct {
@@ -35,7 +38,7 @@ func (g c03Graph) String() string {
 	for h := 0; h < g.n; h++ {
 		for b := 0; b < g.n; b++ {
 			if g.edges[h][b] != eAbsent {
-				fmt.Fprintf(&sb, "p%d %s p%d%s; ", h, []string{"", "<-+", "<-not", "<-agg"}[g.edges[h][b]], b, []string{"", "[temporal-op]", "[temporal-annot]", "[temporal-atom]"}[g.temp[h][b]])
+				fmt.Fprintf(&sb, "p%d %s p%d%s; ", h, []string{"", "<-+", "<-not", "<-agg", "<-+&not", "<-not&+"}[g.edges[h][b]], b, []string{"", "[temporal-op]", "[temporal-annot]", "[temporal-atom]"}[g.temp[h][b]])
 			}
 		}
 	}
@@ -73,7 +76,17 @@ func c03Program(g c03Graph) analysis.Program {
 		var plain []ast.Term
 		for b := 0; b < g.n; b++ {
 			atom := ast.Atom{Predicate: c03Sym(b), Args: []ast.BaseTerm{x}}
-			switch g.edges[h][b] {
+			label := g.edges[h][b]
+			if label == eBothPosFirst {
+				// a positive mention in a rule that precedes the rule with the negated mention
+				prog.Rules = append(prog.Rules, ast.Clause{Head: head, Premises: []ast.Term{wrap(atom, g.temp[h][b])}})
+				label = eNeg
+			}
+			if label == eBothNegFirst {
+				plain = append(plain, wrap(atom, g.temp[h][b]))
+				label = eNeg
+			}
+			switch label {
 			case ePos:
 				plain = append(plain, wrap(atom, g.temp[h][b]))
 			case eNeg:
@@ -212,7 +225,7 @@ func runC03(r *simrt.Run, tier Tier) Outcome {
 			if r.Choose(density, "c03.edge?") != 0 {
 				continue
 			}
-			g.edges[h][b] = []int{ePos, ePos, ePos, eNeg, eAgg}[r.Choose(5, "c03.label")]
+			g.edges[h][b] = []int{ePos, ePos, ePos, eNeg, eAgg, eBothPosFirst, eBothNegFirst}[r.Choose(7, "c03.label")]
 			edges++
 			if g.edges[h][b] >= eNeg {
 				neg++
